@@ -21,7 +21,7 @@ Lemma eqb_obs_refl x : eqb_obs x x = true.
 Proof.
   unfold eqb_obs. rewrite Bool.eqb_reflx, Z.eqb_refl.
   rewrite (eqb_list_refl _ eqb_acct_refl), (eqb_list_refl _ Z.eqb_refl),
-    perm_iev_refl, (eqb_list_refl _ eqb_cev_refl). reflexivity.
+    perm_iev_refl, (eqb_list_refl _ eqb_cev_refl), !Bool.eqb_reflx. reflexivity.
 Qed.
 
 Lemma eqb_acct_true b1 f1 l1 b2 f2 l2 :
@@ -234,6 +234,33 @@ Proof.
   - cbn [cmp_log set_now paused]. rewrite Lc. split; [|split; [|split]]; try reflexivity. intros z. apply eqb_acct_refl.
 Qed.
 
+(* the links to the collaborators change only through set_compliance / set_identity_verifier *)
+Lemma exec_links hc c s r s' :
+  Inv s -> exec_with transfer_from hc c s = Ok (r, s') ->
+  cmp_set s' = (match c_op c with SetCompliance _ => true | _ => cmp_set s end) /\
+  idv_set s' = (match c_op c with SetIdentityVerifier _ => true | _ => idv_set s end).
+Proof.
+  intros HI H. unfold exec_with, unit_ret in H. binds H.
+  destruct (c_op c); binds H; subst.
+  - use transfer_spec. unfold same_core in *. decomp. split; congruence.
+  - use transfer_from_spec. unfold same_core in *. decomp. split; congruence.
+  - use set_allowance_frame. unfold same_core in *. decomp. split; congruence.
+  - use mint_spec. unfold same_core in *. decomp. split; congruence.
+  - use burn_spec. unfold same_core in *. decomp. split; congruence.
+  - use forced_transfer_spec. unfold same_core in *. decomp. split; congruence.
+  - destruct x1 as [b s2]. cbv beta iota in H. binds H. subst.
+    match goal with H : recover_balance _ _ _ _ = _ |- _ => apply (recover_spec _ _ _ s _ _ HI) in H end.
+    decomp. split; congruence.
+  - unfold set_address_frozen in *. binds E0. split; reflexivity.
+  - use freeze_spec. unfold same_core in *. decomp. split; congruence.
+  - use unfreeze_spec. unfold same_core in *. decomp. split; congruence.
+  - unfold pause in *. binds E0. split; reflexivity.
+  - unfold unpause in *. binds E0. split; reflexivity.
+  - split; reflexivity.
+  - split; reflexivity.
+  - split; reflexivity.
+Qed.
+
 (* ------------------------------------------------------------------ *)
 Lemma accts_ok_model lk c r s s' :
   (forall a, match expect_acct lk c r a (acct_of s a) with
@@ -255,13 +282,29 @@ Qed.
 
 Definition allow_of (s : state) (p : addr * addr) : Z := allowance s (fst p) (snd p).
 
+Lemma links_ok_model hc univ prev s c s' o :
+  Inv s -> ob_cmp_set prev = cmp_set s -> ob_idv_set prev = idv_set s ->
+  step hc s c = (s', o) ->
+  links_ok prev (observe univ s') c (is_ok o) = true.
+Proof.
+  intros HI H1 H2 Hs. unfold links_ok, links_after, observe. cbn [ob_cmp_set ob_idv_set]. rewrite H1, H2.
+  destruct o as [r|]; cbn [is_ok].
+  - apply step_ok in Hs. destruct (exec_links hc c (clear_logs s) r s' HI Hs) as [A B].
+    cbn [cmp_set idv_set clear_logs] in A, B. rewrite A, B.
+    destruct (c_op c); cbn [fst snd]; rewrite !Bool.eqb_reflx; reflexivity.
+  - apply step_fail in Hs. subst s'. cbn [cmp_set idv_set clear_logs].
+    destruct (c_op c); cbn [fst snd]; rewrite !Bool.eqb_reflx; reflexivity.
+Qed.
+
 Lemma mon_step_model hc univ prev s c s' o :
   Inv s -> ob_paused prev = paused s -> ob_accts prev = map (acct_of s) univ ->
   ob_allow prev = map (allow_of s) (pairs univ) ->
+  ob_cmp_set prev = cmp_set s -> ob_idv_set prev = idv_set s ->
   step hc s c = (s', o) ->
   mon_step univ prev (I c o (observe univ s')) = true.
 Proof.
-  intros HI Hp Ha Hal Hs. unfold mon_step. cbn [it_obs it_out it_call].
+  intros HI Hp Ha Hal Hl1 Hl2 Hs. unfold mon_step. cbn [it_obs it_out it_call].
+  rewrite (links_ok_model hc univ prev s c s' o HI Hl1 Hl2 Hs).
   assert (HI' : Inv s').
   { pose proof (step_preserves_Inv hc s c HI) as P. rewrite Hs in P. exact P. }
   rewrite (inv_ok_model univ s' HI').
@@ -291,16 +334,14 @@ Qed.
 Lemma mon_model hc univ cs : forall s prev i,
   Inv s -> ob_paused prev = paused s -> ob_accts prev = map (acct_of s) univ ->
   ob_allow prev = map (allow_of s) (pairs univ) ->
+  ob_cmp_set prev = cmp_set s -> ob_idv_set prev = idv_set s ->
   mon_from univ prev (model_items hc univ s cs) i = 0%N.
 Proof.
-  induction cs as [|c cs IH]; intros s prev i HI Hp Ha Hal; cbn [model_items mon_from]; auto.
+  induction cs as [|c cs IH]; intros s prev i HI Hp Ha Hal Hl1 Hl2; cbn [model_items mon_from]; auto.
   destruct (step hc s c) as [s' o] eqn:Hs. cbn [mon_from].
-  rewrite (mon_step_model hc univ prev s c s' o HI Hp Ha Hal Hs). cbn [it_obs].
-  apply IH.
-  - pose proof (step_preserves_Inv hc s c HI) as P. rewrite Hs in P. exact P.
-  - reflexivity.
-  - reflexivity.
-  - reflexivity.
+  rewrite (mon_step_model hc univ prev s c s' o HI Hp Ha Hal Hl1 Hl2 Hs). cbn [it_obs].
+  apply IH; try reflexivity.
+  pose proof (step_preserves_Inv hc s c HI) as P. rewrite Hs in P. exact P.
 Qed.
 
 (* C04_monitor_accepts_model *)
